@@ -123,10 +123,13 @@ pub(super) fn translate_wildcards(ctx: &AnchorContext, cols: Vec<CId>) -> (Vec<C
 fn deduplicate_select_items(items: &mut Vec<SelectItem>) {
     // Dropping all duplicated identifiers
     let mut seen = HashSet::new();
+    let mut seen_compound = HashSet::new();
     items.retain(|select_item| match select_item {
         SelectItem::UnnamedExpr(sql_ast::Expr::CompoundIdentifier(idents)) => {
-            // If any of the identifiers hadn't been seen yet, retain the expr
-            idents.iter().any(|ident| seen.insert(ident.clone()))
+            // Retain the expr unless this exact (qualified) identifier has been seen
+            // already. Comparing the parts one by one would drop `l.b` after
+            // `q.a, q.b, l.a`.
+            seen_compound.insert(idents.clone())
         }
         SelectItem::ExprWithAlias { alias, .. } => seen.insert(alias.clone()),
         _ => true,
